@@ -1,6 +1,7 @@
 package chk
 
 import (
+	"fmt"
 	"go/token"
 	"go/types"
 	"strings"
@@ -13,6 +14,170 @@ func nilRules() []*Rule {
 		{ID: "NIL", Props: []string{"C05", "C10"}, Min: 6,
 			Doc: "results of module functions that can return a nil pointer (without an accompanying error) are dereferenced only where a non-nil test of that very result dominates, or where a loop over the same collection validated every element (and returned an error otherwise)",
 			Run: runNil},
+		{ID: "NIL-ERR", Props: []string{"C05", "C12"}, Min: 12,
+			Doc: "a pointer or interface obtained together with an error is used (field access, method call, dereference) only where the error was tested nil or the value itself tested non-nil: no use-before-check",
+			Run: runNilErr},
+		{ID: "ASSERT-OK", Props: []string{"C05", "C12", "C01", "C02"}, Min: 40,
+			Doc: "the value half of every comma-ok type assertion is used only where the assertion is known to have succeeded: the zero value of a failed assertion never goes on as data",
+			Run: runAssertOK},
+	}
+}
+
+// runNilErr: `t, err := f(); t.x` without looking at err. The module's functions return a nil pointer with their
+// errors, so the use is a nil dereference exactly when the call failed.
+func runNilErr(c *Ctx) {
+	p := c.P
+	for _, fn := range p.ModFuncs() {
+		if !errFn(p, fn) || !p.Reachable(fn) {
+			continue
+		}
+		count := map[string]int{}
+		for _, cs := range callsIn(fn) {
+			call, ok := cs.(*ssa.Call)
+			if !ok {
+				continue
+			}
+			res := call.Call.Signature().Results()
+			if res.Len() < 2 || !isErrorType(res.At(res.Len()-1).Type()) {
+				continue
+			}
+			var errV *ssa.Extract
+			vals := map[int]*ssa.Extract{}
+			for _, r := range *call.Referrers() {
+				if e, ok := r.(*ssa.Extract); ok {
+					if e.Index == res.Len()-1 {
+						errV = e
+					} else {
+						vals[e.Index] = e
+					}
+				}
+			}
+			for i := 0; i < res.Len()-1; i++ {
+				v := vals[i]
+				if v == nil {
+					continue
+				}
+				switch v.Type().Underlying().(type) {
+				case *types.Pointer, *types.Interface:
+				default:
+					continue
+				}
+				ds := derefs(v)
+				if len(ds) == 0 {
+					continue
+				}
+				name := calleeName(p, cs)
+				count[name]++
+				key := fmt.Sprintf("%s→%s result %d", p.FnKey(fn), name, i)
+				if count[name] > 1 {
+					key += "#" + itoa(count[name])
+				}
+				bad := ""
+				for _, d := range ds {
+					if !establishedAt(fn, d.Block(), errV, v) {
+						bad = p.Pos(d.Pos())
+						break
+					}
+				}
+				c.Check(bad == "", key, call.Pos(), "every use of the result lies behind `err == nil` (or a non-nil test of the result) %s", map[bool]string{true: "", false: "— not the use at " + bad + ": when " + name + " fails the result is nil and this is a nil-pointer panic"}[bad == ""])
+			}
+		}
+	}
+}
+
+// establishedAt: block `at` is dominated by the nil edge of a test of errV or by the non-nil edge of a test of v.
+func establishedAt(fn *ssa.Function, at *ssa.BasicBlock, errV, v ssa.Value) bool {
+	for _, b := range fn.Blocks {
+		t := nilTestOf(b.Instrs[len(b.Instrs)-1])
+		if t == nil {
+			continue
+		}
+		var edge *ssa.BasicBlock
+		switch {
+		case errV != nil && t.V == errV:
+			edge = t.Nil
+		case t.V == v:
+			edge = t.NonNil
+		default:
+			continue
+		}
+		if len(edge.Preds) == 1 && (edge == at || edge.Dominates(at)) {
+			return true
+		}
+	}
+	return false
+}
+
+func runAssertOK(c *Ctx) {
+	p := c.P
+	for _, fn := range p.ModFuncs() {
+		if !errFn(p, fn) || !p.Reachable(fn) {
+			continue
+		}
+		n := 0
+		for _, in := range instrs(fn) {
+			ta, ok := in.(*ssa.TypeAssert)
+			if !ok || !ta.CommaOk {
+				continue
+			}
+			var val *ssa.Extract
+			for _, r := range *ta.Referrers() {
+				if e, ok := r.(*ssa.Extract); ok && e.Index == 0 {
+					val = e
+				}
+			}
+			n++
+			key := fmt.Sprintf("%s assertion#%d to %s", p.FnKey(fn), n, types.TypeString(ta.AssertedType, func(pk *types.Package) string { return pk.Name() }))
+			if val == nil {
+				c.Trivial(key, ta.Pos(), "only the verdict is used")
+				continue
+			}
+			bad := ""
+			for _, u := range *val.Referrers() {
+				if _, isDbg := u.(*ssa.DebugRef); isDbg || u.Block() == nil {
+					continue
+				}
+				at := u.Block()
+				if ph, isPhi := u.(*ssa.Phi); isPhi {
+					// a phi uses the value on the edge it arrives by
+					fine := true
+					for i, e := range ph.Edges {
+						if e == ssa.Value(val) && failedAssertion(val, at.Preds[i]) {
+							fine = false
+						}
+					}
+					if fine {
+						continue
+					}
+				}
+				if st, isSt := u.(*ssa.Store); isSt && st.Val == ssa.Value(val) {
+					// spilled into a variable (its address is taken later): the variable's uses count
+					if al, isAl := st.Addr.(*ssa.Alloc); isAl {
+						fine := true
+						for _, r := range *al.Referrers() {
+							if r != ssa.Instruction(st) && r.Block() != nil && failedAssertion(val, r.Block()) {
+								if _, isDbg := r.(*ssa.DebugRef); !isDbg {
+									fine = false
+									u = r
+								}
+							}
+						}
+						if fine {
+							continue
+						}
+						at = u.Block()
+					}
+				}
+				if failedAssertion(val, at) {
+					bad = p.Pos(u.Pos())
+					if bad == "-" {
+						bad = p.Pos(ta.Pos()) + " (" + u.String() + ")"
+					}
+					break
+				}
+			}
+			c.Check(bad == "", key, ta.Pos(), "the asserted value is used only where the assertion succeeded %s", map[bool]string{true: "", false: "— not at " + bad + ": a value of another type goes on as the zero value (0, \"\", nil, an empty statement) instead of an error"}[bad == ""])
+		}
 	}
 }
 
@@ -22,11 +187,17 @@ func mayReturnNil(p *Program) map[*ssa.Function]int {
 	for _, fn := range p.ModFuncs() {
 		res := fn.Signature.Results()
 		for i := 0; i < res.Len(); i++ {
-			if _, ok := res.At(i).Type().Underlying().(*types.Pointer); !ok {
+			switch res.At(i).Type().Underlying().(type) {
+			case *types.Pointer:
+			case *types.Interface:
+				if isErrorType(res.At(i).Type()) {
+					continue
+				}
+			default:
 				continue
 			}
 			for _, r := range returnsOf(fn) {
-				if !isNilConst(r.Results[i]) {
+				if !isNilConst(r.Results[i]) && !failedAssertion(r.Results[i], r.Block()) {
 					continue
 				}
 				errNil := true
@@ -42,10 +213,61 @@ func mayReturnNil(p *Program) map[*ssa.Function]int {
 	return out
 }
 
+// failedAssertion: v is the value half of a comma-ok type assertion and nothing on the way to `at` has established
+// that the assertion succeeded — the zero value (a nil interface or pointer) of the failed case gets through.
+func failedAssertion(v ssa.Value, at *ssa.BasicBlock) bool {
+	e, ok := v.(*ssa.Extract)
+	if !ok || e.Index != 0 {
+		return false
+	}
+	ta, ok := e.Tuple.(*ssa.TypeAssert)
+	if !ok || !ta.CommaOk {
+		return false
+	}
+	for _, r := range *ta.Referrers() {
+		okv, isE := r.(*ssa.Extract)
+		if !isE || okv.Index != 1 {
+			continue
+		}
+		for _, u := range *okv.Referrers() {
+			i, isIf := u.(*ssa.If)
+			if !isIf {
+				continue
+			}
+			yes := i.Block().Succs[0]
+			if len(yes.Preds) == 1 && (yes == at || yes.Dominates(at)) {
+				return false
+			}
+		}
+		for _, u := range *okv.Referrers() {
+			// `if !ok { return }`
+			if n, isNot := u.(*ssa.UnOp); isNot && n.Op == token.NOT {
+				for _, uu := range *n.Referrers() {
+					if i, isIf := uu.(*ssa.If); isIf {
+						no := i.Block().Succs[1]
+						if len(no.Preds) == 1 && (no == at || no.Dominates(at)) {
+							return false
+						}
+					}
+				}
+			}
+		}
+	}
+	return true
+}
+
 func derefs(v ssa.Value) []ssa.Instruction {
 	var out []ssa.Instruction
 	for _, r := range *v.Referrers() {
 		switch x := r.(type) {
+		case ssa.CallInstruction:
+			if x.Common().IsInvoke() && x.Common().Value == v {
+				out = append(out, x)
+			}
+		case *ssa.TypeAssert:
+			if x.X == v && !x.CommaOk {
+				out = append(out, x)
+			}
 		case *ssa.FieldAddr:
 			if x.X == v {
 				out = append(out, x)
@@ -135,7 +357,7 @@ func runNil(c *Ctx) {
 			if bad == "" {
 				c.Pass(key, call.Pos(), "every dereference of the result is guarded")
 			} else {
-				c.Fail(key, call.Pos(), "%s can return nil (e.g. an unknown column name from the stored SQL) and its result is %s: nil-pointer panic on a crafted definition", name, bad)
+				c.Fail(key, call.Pos(), "%s can return nil together with a nil error (e.g. an unknown column name in the stored SQL, a page of the other kind) and its result is %s: nil-pointer panic on a crafted file", name, bad)
 			}
 		}
 	}
@@ -182,15 +404,21 @@ func validatedByLoop(p *Program, t *Termer, fn *ssa.Function, call *ssa.Call, ca
 					continue
 				}
 				sawLookup = true
-				// on the nil outcome the body must leave with an error; continuing requires non-nil
+				// on the nil outcome the body must leave with an error; continuing requires non-nil — established by a
+				// test of the result (a lookup whose result nobody looks at validates nothing)
 				resTerm := "call:" + e.Name
+				tested := false
 				for _, l := range bp.Lits {
 					if reOrd.ReplaceAllString(l.Subject, "") == resTerm && l.C == "nil" {
+						tested = true
 						isNil := (l.Op == token.EQL) == l.Val
 						if isNil && (bp.Stop != nil || bp.Exit == nil || !retErrDefinitelyNonNil(bp, t)) {
 							validates = false
 						}
 					}
+				}
+				if !tested && bp.Stop != nil {
+					validates = false
 				}
 			}
 			// a continuing iteration must have performed the lookup
